@@ -481,7 +481,9 @@ def make_html(eng):
 FM_VALUES = ["a: [2020-01-01]", "a: 2020-01-01", "a: !!binary aGk=", "a: !!set {x, y}", "a: 2020-13-45", "a: 2020-01-01T25:00:00", "a: " + "[" * 400 + "]" * 400, "a: {b: [1, {c: 2.5}], d: null}",
              "a: !!timestamp x", "a: 0x1G", "a: .inf", "? [complex, key]\n: v", "date: 2020-01-01\nauthors: [a, b]\nabstract: '*md*'", "a: !!omap [x: 1]", "a: !!pairs [x: 1, x: 2]", "1: int key\n2.5: float key\nnull: null key"]
 ODD_LINKS = ["<inv://[x>", "[a](inv://[x)", "[a](http://[x)", "<http://[::1>", "[a](mailto:[x)", "[a](inv:k:std:label#x%00y)", "[a](%00)", "[a](#%00)", "[a](x%ZZ)", "<project:#a%00b>", "[a](http://%5Bx)",
-             "[a](inv:%5B#x)", "[a](//[x/y)", "![img](http://[x)", "[a](ftp://[x \"title\")"]
+             "[a](inv:%5B#x)", "[a](//[x/y)", "![img](http://[x)", "[a](ftp://[x \"title\")",
+             # backslashes, group references and template braces in a destination that goes through a url_schemes template
+             "[x](http://h/a\\qb)", "<http://h/C:\\Users\\me>", "<http://h/10.1\\1>", "<http://h/tail\\>", "[x](http://h/\\g<0>)", "[x](http://h/{{netloc}}{{nosuch}})", "<http://h/{{path}}>", "[x](http://h/a?q=\\1#\\2)"]
 
 
 OPTION_VALUES = ['"\\x-1"', '"\\u-0e9"', '"\\U00110000"', '"\\UFFFFFFFF"', '"unterminated', "'a", "|", ">", "|9", "!!python/object x", "*alias", "&a b", "[", "{a: b", '"\\xZZ"', '"\\', "- x", "? y", "a: b: c", "\ttab",
@@ -510,8 +512,8 @@ def _all_directive_options():
 
 DIR_OPTS = []
 DIR_NAMES = []
-ATTR_KEYS = ["width", "height", "align", "w", "h", "a", "class", "id", "name", "scale", "alt", "title", "target", "nosuchkey"]
-ATTR_VALUES = ["1q", "x", "10px", "50%", "left", "-1", "\"a b\""]
+ATTR_KEYS = ["width", "height", "align", "w", "h", "a", "class", "id", "name", "scale", "alt", "title", "target", "nosuchkey", "lineno-start", "emphasize-lines", "number-lines"]
+ATTR_VALUES = ["1q", "x", "10px", "50%", "left", "-1", "\"a b\"", "\"\u00b2\"", "\"\u2460\"", "\"\u0663\"", "\"\"", "\"1,3-2\""]  # (superscript two, circled one: digits for str.isdigit, not for int)
 
 
 def run_more(kind, i, real=False):
@@ -527,7 +529,7 @@ def run_more(kind, i, real=False):
         over = {}
     elif kind == "attrs":
         k_, v_ = ATTR_KEYS[i // len(ATTR_VALUES)], ATTR_VALUES[i % len(ATTR_VALUES)]
-        text = "![alt](img.png){%s=%s} [link](http://x){%s=%s} `code`{%s=%s} [span]{%s=%s}\n\n{%s=%s}\npara\n\n{%s=%s}\n# Heading\n\n{%s=%s}\n![b](c.png)\n" % ((k_, v_) * 7)
+        text = "![alt](img.png){%s=%s} [link](http://x){%s=%s} `code`{%s=%s} [span]{%s=%s}\n\n{%s=%s}\npara\n\n{%s=%s}\n# Heading\n\n{%s=%s}\n![b](c.png)\n\n{%s=%s}\n```python\ncode\n```\n\n{%s=%s}\n    indented code\n\n{%s=%s}\n```{code-block} python\ncode\n```\n" % ((k_, v_) * 10)
         over = {"myst_enable_extensions": ["attrs_inline", "attrs_block"]}
     elif kind == "optval":
         text = "```{note}\n:class: %s\n:name: n%d\n\nbody\n```\n\n```{note}\n---\nclass: %s\n---\nbody\n```\n\nafter\n" % (OPTION_VALUES[i], i, OPTION_VALUES[i])
